@@ -483,7 +483,16 @@ func wshsResponse(r *rng, hostile bool) (head []byte, status int, upg string, ac
 	if upg != "-" {
 		hs = append(hs, wshsHeader{name("Upgrade"), sep(), upg + trailWS()})
 	}
-	hs = append(hs, wshsHeader{name("Connection"), sep(), r.pickS("Upgrade", "upgrade") + trailWS()})
+	// the Connection header of the response is not one of the three acceptance conditions: usual, a token list, repeated, absent
+	switch r.intn(8) {
+	case 0:
+		hs = append(hs, wshsHeader{name("Connection"), sep(), r.pickS("keep-alive, Upgrade", "Upgrade, keep-alive", "keep-alive,upgrade") + trailWS()})
+	case 1:
+		hs = append(hs, wshsHeader{name("Connection"), sep(), "keep-alive"}, wshsHeader{name("Connection"), sep(), "Upgrade" + trailWS()})
+	case 2:
+	default:
+		hs = append(hs, wshsHeader{name("Connection"), sep(), r.pickS("Upgrade", "upgrade") + trailWS()})
+	}
 	mark := map[string]string{"@": strings.Repeat("@", 28), "#": strings.Repeat("#", 28), "%": strings.Repeat("%", 28)}
 	switch acc {
 	case "@", "#", "%":
